@@ -249,3 +249,17 @@ package parse
 //@   ensures result == node_argbool(self)
 //@ func (HasArgument).ArgStatus
 //@   ensures result == node_argstatus(self)
+
+// Identifiers (RFC 6020 section 12): identifier = (ALPHA / "_") *(ALPHA / DIGIT / "_" / "-" / "."),
+// and it must not start with the letters x m l in any case.
+//@ define isAlpha(c) = (65 <= c && c <= 90) || (97 <= c && c <= 122)
+//@ define isIdChar(c) = isAlpha(c) || (48 <= c && c <= 57) || c == '_' || c == '-' || c == '.'
+//@ define startsXml(s) = len(s) >= 3 && (s[0] == 'x' || s[0] == 'X') && (s[1] == 'm' || s[1] == 'M') && (s[2] == 'l' || s[2] == 'L')
+//@ func (*IdArg).Parse
+//@   requires a != nil
+//@   nopanic
+//@   ensures iff(result == nil, len(a.arg) >= 1 && !startsXml(a.arg) && (isAlpha(a.arg[0]) || a.arg[0] == '_') && forall(k, 1, len(a.arg), isIdChar(a.arg[k])))
+//@   loop 0 invariant 1 <= i && i <= len(a.arg) && forall(k, 1, i, isIdChar(a.arg[k]))
+//@ func (*IdArg).Parse$1
+//@   nopanic
+//@   ensures result == isAlpha(c)
